@@ -468,6 +468,9 @@ class EvolvableNetwork(EvolvableModule, metaclass=NetworkMeta):
         else:
             encoder = self._build_encoder(self.encoder.net_config)
 
+        # NOTE: Layer mutations stay disabled for the re-created encoder (see `__init__`)
+        encoder.disable_mutations(MutationType.LAYER)
+
         self.encoder = EvolvableModule.preserve_parameters(self.encoder, encoder)
 
     def _build_encoder(self, net_config: Dict[str, Any]) -> DefaultEncoderType:
